@@ -5,6 +5,7 @@ import (
 	"fmt"
 	"os"
 	"sort"
+	"strings"
 	"time"
 )
 
@@ -157,7 +158,9 @@ func init() {
 	registerProp(&propDef{ID: "C04", Rules: rulesC04, Floor: 2,
 		Expl: "For every circuit type of the module whose Define reaches VerifierChip.Verify, the verifierData argument is definitely a field of the circuit and that field's gnark visibility (struct tag parsed like gnark's schema walker) is '-' or public, i.e. not chosen by the prover. Liveness of the key (digest absorbed first, ConstantSigmasCap is caps[0]) is decided under C11 and C12.",
 		Rule: "one obligation per circuit type reaching the verifier"})
-	registerProp(&propDef{ID: "C11", Rules: func(cx *Ctx) []Obligation { return append(rulesC11(cx), ruleNoCopy(cx, "C11", "challenger", "Chip", "it owns the sponge state and the input/output buffers of the transcript")...) }, Floor: 13,
+	registerProp(&propDef{ID: "C11", Rules: func(cx *Ctx) []Obligation {
+		return append(rulesC11(cx), ruleNoCopy(cx, "C11", "challenger", "Chip", "it owns the sponge state and the input/output buffers of the transcript")...)
+	}, Floor: 13,
 		Expl: "Event-sequence analysis of the challenge derivation reachable from VerifierChip.Verify: the calls to the two transcript primitives (ObserveElement / GetChallenge) are extracted with their static call paths in control-flow order; every squeeze is identified by the challenge field that receives its result (result tagging by call path), every observation by the proof data it depends on; the collapsed sequence must equal plonky2's order; every event executes on every path inside full-range loops over the observed lists; the openings' content order (append-chain content-sequence analysis) is the reference order at both uses; ObserveElement must-stores an empty output buffer; the challenger (sponge state and buffers) is never copied. The sponge arithmetic over arbitrary histories is not decided.",
 		Rule: "one obligation for the order, one per distinct event (binding/coverage), one for the openings order, one for the buffer reset"})
 	registerProp(&propDef{ID: "C01", Floor: 110, Rules: func(cx *Ctx) []Obligation {
@@ -178,7 +181,9 @@ func init() {
 	registerProp(&propDef{ID: "C02", Rules: rulesC02, Floor: 40,
 		Expl: "Partial: (W3) every constant width that reaches the n-bit range primitive through the static call graph is a multiple of the commit checker's base width, the only configuration-dependent width is 64 − ProofOfWorkBits and it is a positive multiple of 16 for every common_circuit_data.json in the repository (else commit-based builds panic in the deferred drain); (dispatch) C06's obligations — no backend skips or mis-selects checks, so the verdict cannot depend on the backend through a dropped constraint; (W2) honest fit by the magnitude analysis (abstract interpretation of the gadget layer over upper bounds, context-sensitive, constant-propagating loop counters): in every context reaching a reduction the value is below p·2^n for the quotient width in force, every operand reaching MulAdd / Inverse is canonical (the hints refuse larger ones), no intermediate value reaches the BN254 field, and upper-layer functions exchange canonical values only — for every configuration and proof shape, under the stated input assumption (proof data and constants canonical); (sponge) a partial last chunk keeps the previous lanes, as needed for the 97-input circuit. Acceptance of concrete proofs (the algebraic identities themselves) is not decided.",
 		Rule: "one obligation per width reaching the range primitive, per circuit description, per C06 rule, per reduction / hint-operand site (worst case over contexts), per package for the interface invariant"})
-	registerProp(&propDef{ID: "C10", Rules: func(cx *Ctx) []Obligation { return append(append(rulesC10(cx), rulesMulAcc(cx, "C10", "poseidon")...), ruleNoEmptyLimb(cx)...) }, Floor: 9,
+	registerProp(&propDef{ID: "C10", Rules: func(cx *Ctx) []Obligation {
+		return append(append(rulesC10(cx), rulesMulAcc(cx, "C10", "poseidon")...), ruleNoEmptyLimb(cx)...)
+	}, Floor: 9,
 		Expl: "Narrow structural clauses only — the injectivity half of C10: in HashNoPad and HashOrNoop the limbs are packed by a loop accumulator acc' = acc + limb_k·base^k (recurrence extracted from the SSA phi; base a compile-time constant ≥ 2^64; exponent = the limb's own index; number of limbs per element bounded — by the slice bounds lo+c / min(_, lo+c) or by a dominating len(input) ≤ c — with base^T ≤ r), and ToVec splits the canonical bit decomposition (no explicit width) into consecutive disjoint chunks of ≤ 63 bits. Plus the MulAcc accumulator discipline (MA) at every MulAcc site of the poseidon package (BN254 permutation, packing): the accumulator is owned and dead after the call, so the computed hash does not depend on the R1CS builder re-using storage. Agreement of the BN254 Poseidon permutation, sponge and shortcut with the reference PoseidonBN128 for all inputs is numeric and not decided.",
 		Rule: "one obligation per packing accumulator, for the chunking, and per MulAcc site"})
 	registerProp(&propDef{ID: "C15", Rules: rulesC15, Floor: 8,
@@ -199,19 +204,29 @@ func init() {
 	registerProp(&propDef{ID: "C13", Rules: rulesC13, Floor: 7,
 		Expl: "Presence and coverage only: per round and step the two coordinate equalities between the bit-selected claimed evaluation and the running evaluation; after the steps the two equalities against the final polynomial at the folded point; the invertibility assertions; coverage of all rounds. The domain point, combination and interpolation formulas are not decided.",
 		Rule: "one obligation per equality coordinate / assertion / loop coverage"})
-	registerProp(&propDef{ID: "C16", Rules: func(cx *Ctx) []Obligation { return append(append(rulesC16(cx), rulesConfigCoverage(cx, "C16/O16.3")...), ruleC16Windows(cx)...) }, Floor: 6,
+	registerProp(&propDef{ID: "C16", Rules: func(cx *Ctx) []Obligation {
+		return append(append(rulesC16(cx), rulesConfigCoverage(cx, "C16/O16.3")...), ruleC16Windows(cx)...)
+	}, Floor: 6,
 		Expl: "Presence and coverage only: for every challenge round (full-range loop, count = Config.NumChallenges) an extension equality (both coordinates) between the vanishing value (depending on gates, wires, sigmas, Z, Z(next), partial products, public-input hash, challenges) and Z_H·quotient (from QuotientPolys via ReduceWithPowers); the L₀ division asserts existence. The formula is not decided.",
 		Rule: "one obligation per coordinate and assertion"})
-	registerProp(&propDef{ID: "C05", Rules: withC06(func(cx *Ctx) []Obligation { return append(append(rulesC05(cx), rulesW3(cx, "C05")...), rulesMagnitude(cx, "C05")...) }), Floor: 40,
+	registerProp(&propDef{ID: "C05", Rules: withC06(func(cx *Ctx) []Obligation {
+		return append(append(rulesC05(cx), rulesW3(cx, "C05")...), rulesMagnitude(cx, "C05")...)
+	}), Floor: 40,
 		Expl: "R1 hint discipline, generic over every Compiler().NewHint call of the module: each hint output is itself the argument of a must-executed range check (bound recorded) and a must-executed equality ties all outputs to all inputs; W1: both sides of each tying equality, evaluated as polynomial bounds over the enforced output bounds and the operand contract (< p), stay below the BN254 modulus, per constant quotient width reaching the site through the call graph (interprocedural constant propagation; globals only if never re-assigned); W3 alignment of every constant width reaching the n-bit range primitive; plus C06's obligations (a backend that drops checks voids the bounds). Decides uniqueness of the witnessed result (no wrap) structurally; does not bound operand magnitudes at every reduction site of the whole verifier (W2, see DESIGN).",
 		Rule: "one obligation per hint output, per tying equality, per (hint site × reaching width), per width reaching the range primitive"})
-	registerProp(&propDef{ID: "C07", Rules: func(cx *Ctx) []Obligation { return append(rulesC07(cx), rulesMulAcc(cx, "C07", "goldilocks")...) }, Floor: 11,
+	registerProp(&propDef{ID: "C07", Rules: func(cx *Ctx) []Obligation {
+		return append(append(rulesC07(cx), rulesMulAcc(cx, "C07", "goldilocks")...), rulesParamRelevance(cx, "C07", func(n string) bool { return !strings.Contains(n, "Extension") && !strings.Contains(n, "Algebra") })...)
+	}, Floor: 15,
 		Expl: "Narrow structural clauses only: Inverse's product assertion is conditioned on IsZero(x) and the flag derives from it; Reduce forwards the never-reassigned constant RANGE_CHECK_NB_BITS ≥ 144; every reducing method of gl.Chip returns a hint output confined to [0,p) by a must-executed canonical range check. Plus the MulAcc accumulator discipline (MA) at every MulAcc site of the goldilocks package: the accumulator is owned and dead after the call, so the result does not depend on the R1CS builder re-using its storage. Numerical exactness for all operands is not decided.",
 		Rule: "one obligation per clause / per reducing method of gl.Chip (enumerated from the method set) / per MulAcc site"})
-	registerProp(&propDef{ID: "C08", Rules: func(cx *Ctx) []Obligation { return append(append(rulesC08(cx), rulesC08Widths(cx)...), rulesMagnitude(cx, "C08")...) }, Floor: 20,
+	registerProp(&propDef{ID: "C08", Rules: func(cx *Ctx) []Obligation {
+		return append(append(append(rulesC08(cx), rulesC08Widths(cx)...), rulesMagnitude(cx, "C08")...), rulesParamRelevance(cx, "C08", func(n string) bool { return strings.Contains(n, "Extension") })...)
+	}, Floor: 30,
 		Expl: "Narrow structural clauses only: InverseExtension must-asserts IsZero(a[0])·IsZero(a[1]) == 0 (zero test over both coordinates); DivExtension passes its divisor itself to InverseExtension on every path; every quotient width that reaches the witnessed reduction (including from the extension API) admits a single result (W1) and the reduction/MulAdd hint discipline holds (R1). The field identities are not decided.",
 		Rule: "one obligation per clause"})
-	registerProp(&propDef{ID: "C09", Rules: func(cx *Ctx) []Obligation { return append(append(append(rulesC09(cx), rulesC09Function(cx)...), ruleSpongeOverwrite(cx)...), ruleSpongeSqueeze(cx)...) }, Floor: 10,
+	registerProp(&propDef{ID: "C09", Rules: func(cx *Ctx) []Obligation {
+		return append(append(append(rulesC09(cx), rulesC09Function(cx)...), ruleSpongeOverwrite(cx)...), ruleSpongeSqueeze(cx)...)
+	}, Floor: 10,
 		Expl: "Narrow structural clauses only: HashNoPad reduces every input (full-range loop) and hands only reduction results to the sponge; the permutation is a function: R1/W1 for every hint site reached from the Goldilocks Poseidon (widths of the s-box reductions); sibling constant tables used by the base and extension implementations agree element-wise and every table constant is < p. Equality with plonky2's Poseidon for all inputs is not decided.",
 		Rule: "one obligation per clause, per reaching width, per table"})
 	registerProp(&propDef{ID: "C06", Rules: rulesC06, Floor: 14,
